@@ -86,7 +86,17 @@ impl Read for ArrSrc {
     // error is a plain ErrorKind value (std's default returns a pointer-tagged static that CBMC cannot constant-fold,
     // which makes it explore the success continuation of every failed read as well).
     fn read_exact(&mut self, buf: &mut [u8]) -> Result<(), Error> {
-        if self.failed && self.prune { nd::stop(); }
+        if !self.prune {
+            // std's default algorithm (through `read`, so fragmentation applies)
+            let mut done = 0;
+            while done < buf.len() {
+                let n = match self.read(&mut buf[done..]) { Ok(n) => n, Err(e) => return Err(e) };
+                if n == 0 { return Err(Error::from(crate::io::ErrorKind::UnexpectedEof)); }
+                done += n;
+            }
+            return Ok(());
+        }
+        if self.failed { nd::stop(); }
         let avail = self.len - self.pos;
         if avail < buf.len() {
             self.pos = self.len;
@@ -127,6 +137,15 @@ macro_rules! ok_or_fail {
     };
 }
 pub(crate) use ok_or_fail;
+
+/// asserts success without moving the error payload out of the Result (moving a FrameDecoderError - a deeply nested
+/// union for CBMC - costs far more symbolic-execution time than everything else in a decode_blocks call)
+#[inline(never)]
+pub(crate) fn must_ok<T>(r: Result<T, FrameDecoderError>, what: &'static str) {
+    let ok = r.is_ok();
+    core::mem::forget(r);
+    assert!(ok, "{}", what);
+}
 
 fn check_content(out: &[u8; MAXC], n: usize, b: &Built) {
     assert!(n == b.clen, "decoded length differs from the content length");
@@ -314,15 +333,15 @@ pub(crate) fn run_program(sk: &Skel, chunk: usize, prog: &[Op]) {
     let b = build(sk);
     let mut src = src_of(&b, b.flen + 2, chunk);
     let mut dec = FrameDecoder::new();
-    ok_or_fail!(dec.reset(&mut src), "valid frame header refused");
+    must_ok(dec.reset(&mut src), "valid frame header refused");
     let mut out = [0u8; MAXC];
     let mut n = 0usize;
     let mut s = 0;
     while s < prog.len() {
         match prog[s] {
-            Op::All => { if !dec.is_finished() { ok_or_fail!(dec.decode_blocks(&mut src, BlockDecodingStrategy::All), "decode failed"); } }
-            Op::Blocks(k) => { if !dec.is_finished() { ok_or_fail!(dec.decode_blocks(&mut src, BlockDecodingStrategy::UptoBlocks(k)), "decode failed"); } }
-            Op::Bytes(k) => { if !dec.is_finished() { ok_or_fail!(dec.decode_blocks(&mut src, BlockDecodingStrategy::UptoBytes(k)), "decode failed"); } }
+            Op::All => { if !dec.is_finished() { must_ok(dec.decode_blocks(&mut src, BlockDecodingStrategy::All), "decode failed"); } }
+            Op::Blocks(k) => { if !dec.is_finished() { must_ok(dec.decode_blocks(&mut src, BlockDecodingStrategy::UptoBlocks(k)), "decode failed"); } }
+            Op::Bytes(k) => { if !dec.is_finished() { must_ok(dec.decode_blocks(&mut src, BlockDecodingStrategy::UptoBytes(k)), "decode failed"); } }
             Op::Collect => {
                 if let Some(v) = dec.collect() {
                     let mut j = 0; while j < v.len() { out[n + j] = v[j]; j += 1; }
@@ -351,7 +370,7 @@ pub(crate) fn run_program(sk: &Skel, chunk: usize, prog: &[Op]) {
         s += 1;
     }
     // finish the frame and drain the rest
-    if !dec.is_finished() { ok_or_fail!(dec.decode_blocks(&mut src, BlockDecodingStrategy::All), "decode failed"); }
+    if !dec.is_finished() { must_ok(dec.decode_blocks(&mut src, BlockDecodingStrategy::All), "decode failed"); }
     check_finished(&dec, sk, &b, &src);
     n += ok_or_fail!(Read::read(&mut dec, &mut out[n..]), "read failed");
     assert!(dec.can_collect() == 0);
